@@ -223,6 +223,8 @@ class Stats:
         for k, v in o.extra.items():
             if isinstance(v, (int, float)) and isinstance(self.extra.get(k, 0), (int, float)):
                 self.extra[k] = self.extra.get(k, 0) + v
+            elif isinstance(v, list) and isinstance(self.extra.get(k, []), list):
+                self.extra[k] = (self.extra.get(k, []) + v)[:12]
             else:
                 self.extra[k] = v
 
@@ -355,6 +357,17 @@ def stop_flag():
     return os.path.join(scratch_root(), "STOP-violation-found")
 
 
+def diag(kind, obj):
+    """diagnostics for the maintainer of the checks (never evidence, never a verdict): OUT/diagnostics/<kind>-<pid>.jsonl"""
+    try:
+        d = os.path.join(OUT, "diagnostics")
+        os.makedirs(d, exist_ok=True)
+        with open(os.path.join(d, "%s-%d.jsonl" % (kind, os.getpid())), "a") as f:
+            f.write(json.dumps(obj) + "\n")
+    except OSError:
+        pass
+
+
 def hyp_search(strategy, runfn, n_examples, seed, stats, stop_on_fail=True):
     """Run `runfn(scenario, stats) -> None | str(violation)` on Hypothesis-generated scenarios.
     On failure Hypothesis shrinks (for at most SHRINK_BUDGET_S seconds); the minimal failing scenario is appended to stats.violations.
@@ -378,7 +391,28 @@ def hyp_search(strategy, runfn, n_examples, seed, stats, stop_on_fail=True):
             if digest(sc) == last_fail["digest"]:
                 raise AssertionError(last_fail["msg"])
             return
-        msg = runfn(sc, stats)
+        try:
+            msg = runfn(sc, stats)
+        except (HarnessError, KeyboardInterrupt, _StopSearch):
+            raise
+        except Exception:
+            # an exception of the harness itself is never a verdict about the program: diagnosed, counted as inconclusive (the driver
+            # exits 2 when a large share of the cases ends like this)
+            stats.inconclusive += 1
+            stats.cls("harness_exception")
+            diag("exception", {"trace": traceback.format_exc()[-3000:], "scenario": jsonable(sc)})
+            return
+        if msg and "sc" not in last_fail:
+            # a first failure counts only if it reproduces twice more on the spot (a failure that does not is a harness/timing artefact:
+            # recorded for diagnosis as inconclusive, never reported and never allowed to stop the other workers)
+            for _ in range(2):
+                m2 = runfn(sc, Stats())
+                if not m2:
+                    stats.inconclusive += 1
+                    stats.cls("unreproducible_failure")
+                    diag("unreproducible", {"msg": msg[:2000], "scenario": jsonable(sc)})
+                    msg = None
+                    break
         if msg:
             last_fail.setdefault("t0", time.time())
             last_fail["sc"] = sc
@@ -403,4 +437,5 @@ def hyp_search(strategy, runfn, n_examples, seed, stats, stop_on_fail=True):
         # non-deterministic harness behaviour: never a violation
         stats.inconclusive += 1
         stats.cls("flaky_unreproducible")
+        diag("flaky", {"msg": last_fail.get("msg"), "scenario": jsonable(last_fail.get("sc"))})
     return stats
